@@ -95,3 +95,30 @@ JOBS += [
                wip=DONE, est_s=30),
     writer_job('parquet_write_page_header', 'h_write_page_header', callees=['write_statistics'], wip=DONE),
 ]
+
+# ---- C13 parser dispatch lemma / C17 logical-type ids: reader BODIES serving one ghost field (-DCQV_PT_RLOG) ------
+TRUST_D = ['stubs/ptypes_stubs.c (-DCQV_PT_RLOG): thrift_read_* replaced by bodies that serve one arbitrary first field '
+           '(wire type, id), report every nested struct as empty, and count reader calls; arena as in the C08 jobs']
+D = dict(overlays=['contracts/ptypes.ovl'], includes=['.'], harness='harness/C13/ptypes.c', loop_contracts=False,
+         extra_sources=['stubs/mem_stubs.c', 'stubs/ptypes_stubs.c'], trusted=TRUST_D, replace=A_STUBS,
+         defines=['CQV_PT_RLOG=1', 'CQV_ALLOC_NEVER_FAILS=1', 'CQV_MEMSET_EXACT=32'], unwind=4, object_bits=12,
+         level='bounded', bound='first field of the struct arbitrary (every id, every wire type); nested structs empty; list length <= 2',
+         est_s=60, wip=True)
+
+
+def disp_job(fn, entry, props=('C13',), **kw):
+    d = dict(name='c13_disp_' + fn, props=list(props), entry=entry, functions=[fn], **D)
+    d.update(kw)
+    return d
+
+
+JOBS += [
+    disp_job('parse_logical_type', 'h_disp_logical_type', props=('C13', 'C17'), name='c13_parse_logical_type_ids'),
+    disp_job('parse_statistics', 'h_disp_statistics'),
+    disp_job('parse_schema_element', 'h_disp_schema_element'),
+    disp_job('parse_column_metadata', 'h_disp_column_metadata'),
+    disp_job('parse_column_chunk', 'h_disp_column_chunk'),
+    disp_job('parse_row_group', 'h_disp_row_group'),
+    disp_job('parquet_parse_file_metadata', 'h_disp_file_metadata'),
+    disp_job('parquet_parse_page_header', 'h_disp_page_header'),
+]
